@@ -51,7 +51,17 @@ func LowerRegexp(r *syntax.Regexp) *syntax.Regexp {
 // Returns original input if an error is encountered
 func OptimizeRegexp(re *syntax.Regexp, flags syntax.Flags) *syntax.Regexp {
 	r := convertCapture(re, flags)
-	return r.Simplify()
+	s := r.Simplify()
+
+	// Simplify expands counted repetitions (x{2,1000}) into nested optional
+	// groups. The result is printed and parsed again downstream (matchtree,
+	// proto), which fails once the nesting exceeds the parser's limit. Keep
+	// the unexpanded form in that case.
+	if _, err := syntax.Parse(syntaxutil.RegexpString(s), flags); err != nil {
+		return r
+	}
+
+	return s
 }
 
 func convertCapture(re *syntax.Regexp, flags syntax.Flags) *syntax.Regexp {
